@@ -40,8 +40,34 @@ class AngleAxisVal:
         self.angle, self.axis = angle, axis
 
 
+EPS_OF = {"double": 100 * 2.0 ** -52, "float": 100 * 2.0 ** -23}
+
+
+def theta_s(thr, k, scalar):
+    """switch-over magnitude of `quantity (of valuation k in the rotation magnitude) < thr` for the scalar type"""
+    eps_d = S.Fraction(100, 2 ** 52)
+    if thr == eps_d:
+        t = EPS_OF[scalar]
+    elif thr == S.Fraction(10, 2 ** 26):
+        t = EPS_OF[scalar] ** 0.5
+    else:
+        t = float(thr)
+    return float("%.6g" % (t ** (1.0 / k)))
+
+
 class SeriesSym(P.PolySym):
-    """Jet-domain interpreter (engine/jetnum.py), closed-form world."""
+    """Jet-domain interpreter (engine/jetnum.py).  world = None: every precision switch on its closed-form side.
+    world = theta (a float): the world that is active for rotation magnitudes just below theta - a switch whose
+    switch-over magnitude theta_s is >= theta is on its small-angle side, every other one on its closed-form side."""
+    world = None
+    scalar = "double"
+
+    def small_side(self, thr, k, node):
+        ths = theta_s(thr, k, self.scalar)
+        self.switches.add((thr, k, node.get("ln")))
+        if self.world is None:
+            return False
+        return ths >= self.world * (1 - 1e-9)
 
     def ev(self, n, env):
         n0 = A.strip(n)
@@ -56,9 +82,9 @@ class SeriesSym(P.PolySym):
             def vanishing(x):
                 return symbolic(x) and x.vz() >= 1
             if threshold(b) and vanishing(a):
-                return n0["op"] in (">", ">=")       # closed-form world: the rotation magnitude is above the threshold
+                return (n0["op"] in ("<", "<=")) == self.small_side(b.c, a.vz(), n0)
             if threshold(a) and vanishing(b):
-                return n0["op"] in ("<", "<=")
+                return (n0["op"] in (">", ">=")) == self.small_side(a.c, b.vz(), n0)
             if isinstance(a, (S.Aff, S.Poly)) and isinstance(b, (S.Aff, S.Poly)) and (symbolic(a) or symbolic(b)):
                 # sign conditions on symbolic data (cos_angle < 0): decided by the value at the identity when it is non-zero
                 d = J.add(a, b, -1)
@@ -167,7 +193,10 @@ def mat_jets(m):
     return rows
 
 
-def analyse(rep, prop, v, what, order_exp=5, order_jac=4):
+TOL = {"double": {"value": 1e-9, "jac": 1e-7}, "float": {"value": 1e-4, "jac": 1e-3}}      # as R-JET
+
+
+def analyse(rep, prop, v, what, order_exp=5, order_jac=4, world=None, scalar="double", switches_out=None):
     """what: subset of {'exp','log','expjac','logjac','adjexp','rjac','ljac','rjacinv','ljacinv'}"""
     what = set(what)
     tcls, gcls, dof, rep_n = TAN[v]
@@ -179,6 +208,8 @@ def analyse(rep, prop, v, what, order_exp=5, order_jac=4):
     n_obl = 0
     try:
         sym = SeriesSym(F)
+        sym.switches = set()
+        sym.world, sym.scalar = world, scalar
         cs = [sp.Symbol("c%d" % i) for i in range(dof)]
         m = S.Mat(dof, 1)
         m.cells = [J.JetNum({1: c}) for c in cs]
@@ -186,6 +217,10 @@ def analyse(rep, prop, v, what, order_exp=5, order_jac=4):
         H = sp.Matrix([[S.to_sym(TT.H.get(r, c)) for c in range(TT.H.C)] for r in range(TT.H.R)])
         AD = sp.Matrix([[S.to_sym(TT.smallAdj.get(r, c)) for c in range(dof)] for r in range(dof)])
         Idof = sp.eye(dof)
+        rdim = 2 if v in ("SO2", "SE2") else 3
+        angular = sorted({cs.index(x) for r in range(rdim) for c in range(rdim) for x in H[r, c].free_symbols if x in cs})   # rotation block of hat
+        if len(angular) != (1 if rdim == 2 else 3):
+            raise C.AnalysisBroken("R-SERIES: cannot identify the angular coefficients of %s from its hat table (%s)" % (v, angular))
 
         def F_(rule, site, msg, f):
             return C.Finding(prop, rule, "%s:%s" % (own_t, site), msg, f["file"], f["line"])
@@ -216,13 +251,38 @@ def analyse(rep, prop, v, what, order_exp=5, order_jac=4):
                             d = J.simp(g.get(kk, sp.Integer(0)) - wk)
                             if d != 0:
                                 d = sp.simplify(d.subs({rr: sp.sqrt(rad) for rad, rr in J._roots.items()}))
+                            if d != 0 and world is not None:
+                                # small-angle world: a neglected term of angular degree a contributes at most theta^a
+                                # (relative to the non-angular components) below the switch-over magnitude `world`
+                                try:
+                                    dp = sp.Poly(d, *cs)
+                                except sp.PolynomialError:
+                                    raise C.AnalysisBroken("R-SERIES.small: non-polynomial residual in %s(%d,%d) of %s" % (name, r, c, v))
+                                tol_ = TOL[scalar][clause_of(name)]
+                                low = []
+                                for mon, coef in dp.terms():
+                                    a_ = sum(mon[i] for i in angular)
+                                    if not coef.is_number:
+                                        raise C.AnalysisBroken("R-SERIES.small: symbolic coefficient in the residual of %s(%d,%d) of %s" % (name, r, c, v))
+                                    if abs(float(coef)) * world ** a_ > tol_:
+                                        low.append((mon, coef, a_))
+                                if not low:
+                                    continue
+                                mon, coef, a_ = low[0]
+                                bad = "order %d: the code on the small-angle side omits / alters the term %s (angular degree %d: error up to %.1e relative to the non-angular components just below the switch-over |theta| = %.3g, tolerance %.0e)" % (
+                                    kk, str(coef * sp.prod([x ** e for x, e in zip(cs, mon)]))[:80], a_, abs(float(coef)) * world ** a_, world, tol_)
+                                break
                             if d != 0:
                                 bad = "order %d: closed form %s, series %s" % (kk, str(g.get(kk, 0))[:70], str(wk)[:70])
                                 break
+                    rule = "R-SERIES." + name if world is None else "R-SERIES.small." + name
+                    tag = "" if world is None else ":%s" % scalar
                     rep.obligation(bad is None, lambda r=r, c=c, bad=bad: F_(
-                        "R-SERIES." + name, "%s(%d,%d)" % (name, r, c),
-                        "the Taylor jet (through order %d in the tangent) of the closed form of %s at (%d,%d) differs from the defining series: %s" % (order, name, r, c, bad), f))
+                        rule, "%s(%d,%d)%s" % (name, r, c, tag),
+                        "the Taylor jet (through order %d in the tangent) of %s at (%d,%d) differs from the defining series: %s" % (order, name, r, c, bad), f))
 
+        def clause_of(name):
+            return "value" if name in ("exp", "log") else "jac"
         def ad_series(coef):
             out, P_ = sp.zeros(dof, dof), sp.eye(dof)
             for kk in range(order_jac + 1):
@@ -307,6 +367,8 @@ def analyse(rep, prop, v, what, order_exp=5, order_jac=4):
             compare(name, got, want, order_jac, f)
     finally:
         S.POLY, S.JET = old
+        if switches_out is not None:
+            switches_out |= sym.switches
     return n_obl
 
 
@@ -322,16 +384,27 @@ class _Collector:
 
 
 def _worker(job):
-    repo, prop, v, what, oe, oj = job
+    repo, prop, v, what, oe, oj, small = job
     if repo != C.REPO:
         C.set_repo(repo)
     J.ORDER = max(9, max(oe, oj) + 6)       # margin for the divisions by e^k (k <= 6) in the closed forms
     col = _Collector()
+    worlds = []
     try:
-        n = analyse(col, prop, v, set(what), oe, oj)
+        sw = set()
+        n = analyse(col, prop, v, set(what), oe, oj, None, "double", sw)
+        if small:
+            for scalar in ("double", "float"):
+                for th in sorted({theta_s(thr, k, scalar) for thr, k, _ in sw}):
+                    sw2 = set()
+                    n += analyse(col, prop, v, set(what), oe, oj, th, scalar, sw2)
+                    worlds.append((scalar, th))
+                    new = {(t_, k_) for t_, k_, _ in sw2} - {(t_, k_) for t_, k_, _ in sw}
+                    if new:
+                        raise C.AnalysisBroken("R-SERIES.small: %s of %s reaches a precision switch only on a small-angle side (%s): extend the world enumeration" % (what, v, sorted(new)))
     except C.AnalysisBroken as ex:
-        return v, 0, col.n_ok, col.findings, str(ex)
-    return v, n, col.n_ok, col.findings, None
+        return v, what, 0, col.n_ok, col.findings, str(ex), worlds
+    return v, what, n, col.n_ok, col.findings, None, worlds
 
 
 def check(rep, prop, what, variants=None, order_exp=5, order_jac=4):
@@ -347,14 +420,16 @@ def check(rep, prop, what, variants=None, order_exp=5, order_jac=4):
             oe, oj = order_exp, order_jac
             if deep and w not in INVERSES:
                 oe, oj = order_exp + 2, order_jac + 2
-            jobs.append((C.REPO, prop, v, [w], oe, oj))
+            small = deep or not (w in INVERSES and TAN[v][2] >= 9)     # 9x9 / 10x10 Neumann inverses: small-angle worlds in the thorough tier only
+            jobs.append((C.REPO, prop, v, [w], oe, oj, small))
     jobs.sort(key=lambda j: -TAN[j[2]][2])
     ctx = mp.get_context("fork")
     with ctx.Pool(min(len(jobs), 12)) as pool:
         res = pool.map(_worker, jobs, chunksize=1)
     total = 0
-    rep.section("series", tier=C.tier(), jobs=[{"variant": j[2], "function": j[3][0], "order": (j[4] if j[3][0] in ("exp", "log") else j[5])} for j in jobs])
-    for v, n, n_ok, findings, broke in res:
+    rep.section("series", tier=C.tier(), jobs=[{"variant": j[2], "function": j[3][0], "order": (j[4] if j[3][0] in ("exp", "log") else j[5]), "small_angle_worlds": j[6]} for j in jobs],
+                worlds=sorted({"%s:%.3g" % w for r_ in res for w in r_[6]}))
+    for v, w_, n, n_ok, findings, broke, worlds in res:
         if broke:
             rep.broke(broke)
         rep.ok(n_ok)
